@@ -1,4 +1,6 @@
 """C18 — vectorize / external_operation: real elfi.tools vs Model/Tools.lean + direct statement."""
+import re
+
 import numpy as np
 
 import elfi
@@ -214,6 +216,9 @@ TEMPLATES = [
     ('echo {k} {j}', 0, ['k', 'j']), ('echo 5 {0} {batch_size}', 1, ['batch_size']), ('printf "%s\\n" {0} {1}', 2, []),
     ('echo {0},{1}', 2, []), ('echo {seed}', 0, ['seed']), ('echo {seed} {0}', 1, ['seed']),
     ('echo {seed} {index_in_batch} {batch_index}', 0, ['seed', 'meta']), ('echo {0} {missing}', 1, ['missing']),
+    # output on SEVERAL lines with several numbers per line (a table), also ragged: all the numbers, in order, as one flat array
+    ('printf "%s %s\\n%s %s\\n" {0} {1} {1} {0}', 2, []), ('printf "%s %s\\n%s\\n" {0} {1} {0}', 2, []),
+    ('printf "%s %s %s\\n%s %s %s\\n" {0} {1} {k} {k} {1} {0}', 2, ['k']),
 ]
 
 
@@ -245,7 +250,7 @@ def check_external(ctx):
                 pass
             continue
         out = op(*pos, **kw)
-        text = tpl.replace('echo ', '').replace('printf "%s\\n" ', '').format(*pos, **kw)
+        text = re.sub(r'^printf "[^"]*" ', '', tpl.replace('echo ', '')).format(*pos, **kw)
         exp = np.array([float(x) for x in text.replace(',', ' ').split()])
         exp_dtype = np.dtype(dtype) if dtype else np.dtype(float)
         if not (isinstance(out, np.ndarray) and out.dtype == exp_dtype and np.array_equal(out.astype(float), exp.astype(exp_dtype).astype(float))):
